@@ -4,6 +4,7 @@ package main
 import (
 	"fmt"
 	"io"
+	"regexp"
 	"strconv"
 	"strings"
 
@@ -76,7 +77,7 @@ func gen(r *vh.Rand, tier string, n int, emit func(vh.Case)) {
 				c.Ops = append(c.Ops, strings.TrimSpace("jnew "+strings.Join(toks, " ")))
 			}
 			for j, m := 0, r.Intn(12); j < m; j++ {
-				c.Ops = append(c.Ops, vh.Pick(r, []string{"next", "next", "next", "val", "close"}))
+				c.Ops = append(c.Ops, vh.Pick(r, []string{"next", "next", "next", "val", "close", "rares"}))
 			}
 			emit(c)
 			continue
@@ -106,7 +107,7 @@ func gen(r *vh.Rand, tier string, n int, emit func(vh.Case)) {
 		}
 		c.Ops = append(c.Ops, "new "+strings.Join(sh, " "))
 		for j, m := 0, r.Intn(16); j < m; j++ {
-			c.Ops = append(c.Ops, vh.Pick(r, []string{"next", "next", "next", "next", "val", "val", "close", "stat", "readall"}))
+			c.Ops = append(c.Ops, vh.Pick(r, []string{"next", "next", "next", "next", "val", "val", "close", "stat", "readall", "rares"}))
 		}
 		if r.Bool() {
 			c.Ops = append(c.Ops, "readall")
@@ -300,6 +301,29 @@ func exec(c vh.Case, o *vh.Out) {
 			}
 		case "stat":
 			o.Emit("nexts=%d closes=%d", s.nexts, s.closes)
+		case "rares":
+			// ReadAllResults: over ToResultIter(it) for combinator trees, directly over a JSONIter
+			if ji != nil {
+				o.Kind("json-readallresults")
+				o.Emit("%s", ji.ReadAllResults())
+				break
+			}
+			before := s.closes
+			vs, err := iter.ReadAllResults[int](iter.ToResultIter[int](it))
+			if err != nil {
+				o.Fail("toresult-error", "ToResultIter produced an error result: %v", err)
+			}
+			if s.closes != before {
+				o.Fail("readallresults-closed", "ReadAllResults closed the source")
+			}
+			if fresh {
+				if want := spec(specOps, srcVals); showList(vs) != showList(want) {
+					o.Fail("list-law", "ReadAllResults(ToResultIter)=%s want %s", showList(vs), showList(want))
+				}
+			}
+			fresh = false
+			o.Kind("toresult")
+			o.Emit("%s nexts=%d closes=%d", showList(vs), s.nexts, s.closes)
 		case "readall":
 			before := s.nexts
 			vs := iter.ReadAll(it)
@@ -333,6 +357,33 @@ type jsonCur interface {
 	Next() bool
 	Val() (string, bool)
 	Close() error
+	ReadAllResults() string // rendering of iter.ReadAllResults on the iterator: list, or err@<index>
+}
+
+var errAt = regexp.MustCompile(`error on result (\d+)`)
+
+func renderResults[T any](vs []T, err error, show func(T) string) string {
+	if err != nil {
+		if m := errAt.FindStringSubmatch(err.Error()); m != nil {
+			return "err@" + m[1]
+		}
+		return "err@?"
+	}
+	ss := make([]string, len(vs))
+	for i, v := range vs {
+		ss[i] = show(v)
+	}
+	return "[" + strings.Join(ss, ",") + "]"
+}
+
+func (j jsonInt) ReadAllResults() string {
+	vs, err := iter.ReadAllResults[int](j.JSONIter)
+	return renderResults(vs, err, strconv.Itoa)
+}
+
+func (j *jsonList) ReadAllResults() string {
+	vs, err := iter.ReadAllResults[[]int](j.JSONIter)
+	return renderResults(vs, err, showList)
 }
 type jsonInt struct{ *iter.JSONIter[int] }
 
